@@ -75,6 +75,7 @@ type thread struct {
 	exiting bool
 	vc      []int32
 	started bool
+	spawnPC uintptr
 }
 
 type item struct {
@@ -319,7 +320,7 @@ func (s *Sched) next(self *thread) {
 				if !s.mainDone {
 					s.deadlock = true
 				}
-				s.leaks = append(s.leaks, fmt.Sprintf("%s parked forever in %s", t.path, t.pendDesc()))
+				s.leaks = append(s.leaks, fmt.Sprintf("goroutine %s (started at %s) parked forever in %s", t.path, t.spawnSite(), t.pendDesc()))
 			}
 		}
 		s.finish()
@@ -809,6 +810,41 @@ func Select(cases ...SelCase) int {
 func Go(fn func()) {
 	t := S.newThread(S.cur, fn)
 	t.pend = &op{kind: opStart}
+	var pcs [1]uintptr
+	if runtime.Callers(2, pcs[:]) == 1 {
+		t.spawnPC = pcs[0]
+	}
+}
+
+func (t *thread) spawnSite() string {
+	if t.spawnPC == 0 {
+		return "harness"
+	}
+	s := symbolizeAll([]uintptr{t.spawnPC})
+	if s == "" {
+		return "harness"
+	}
+	return s
+}
+
+func symbolizeAll(pcs []uintptr) string {
+	fr := runtime.CallersFrames(pcs)
+	var b []string
+	for {
+		f, more := fr.Next()
+		fn := f.Function
+		if i := strings.Index(fn, "["); i > 0 {
+			fn = fn[:i]
+		}
+		if i := strings.LastIndex(fn, "/"); i >= 0 {
+			fn = fn[i+1:]
+		}
+		b = append(b, fmt.Sprintf("%s:%d", fn, f.Line))
+		if !more {
+			break
+		}
+	}
+	return strings.Join(b, " < ")
 }
 
 // Yield is an explicit scheduling point (used by harnesses).
